@@ -5,7 +5,8 @@ import OxiVerif.Model.C15
 /-!
 Driver for C15.  Request / answer syntax: see `harness/src/bin/c15.rs`.
 MODEL  = `E:` the reported elements with `parent_heading`/`heading_path` RE-COMPUTED by the model's
-         per-page `assignHeadingPaths` (levels from the reported title sizes) `|Z:` echo `|C:` the
+         `partitionHeadings` (per-page passes, then the document-level pass; levels from the reported
+         title sizes ranked per page / over the document) `|Z:` echo `|C:` the
          model's `ragChunks` on the reported elements (word-proxy counter; the SHA-256 prefix of each
          chunk is taken from the harness's independent `sha2` computation) `|X:same`.
 ORACLE = spec side on the implementation's answer, from the AUTHORED document only:
@@ -14,7 +15,8 @@ ORACLE = spec side on the implementation's answer, from the AUTHORED document on
   pages     page_numbers = sorted distinct authored pages of the items whose text overlaps the chunk
   breadcrumb heading_path = titles not yet closed by a later title of level ≤ theirs, over the whole
             document, for the first item of the chunk (`breadcrumb-page-reset` when the answer is
-            what that rule gives if the stack is emptied at every page break)
+            what that rule gives if the stack is emptied at every page break — the repaired C15-F1;
+            no open finding matches it any more)
   ids/links chunk_id = (doc_hash | sha8(full_text)) ":" index, index = position, prev/next = neighbours
   budget    token_estimate = words(text); not oversized → ≤ max_tokens
   determinism second process produced the identical dump (and identical element-markdown export)
@@ -252,14 +254,17 @@ def handle (req impl : String) : String × String :=
               match kv.splitOn "=" with
               | [k, v] => k.toNat?.map fun k => (k, if v.startsWith "-" then none else v.toNat?)
               | _ => none
-          -- the heading pass, per page, on the reported kinds/texts
-          let pagesEls := splitPages els
-          let els' := pagesEls.flatMap fun pg =>
-            let titleSizes := pg.filterMap fun e =>
-              if e.isTitle then ((sizes.find? (·.1 == e.md.id)).bind (·.2)).filter (· > 0) else none
-            let bs := buckets titleSizes
-            let levelOf := fun (e : Elem) => levelOfSize bs (((sizes.find? (·.1 == e.md.id)).bind (·.2)).filter (· > 0))
-            assignHeadingPaths levelOf pg
+          -- the heading passes on the reported kinds/texts: per page (size ranking of the page),
+          -- then over the whole document (size ranking of the document) — `partitionHeadings`
+          let sizeOf := fun (e : Elem) => ((sizes.find? (·.1 == e.md.id)).bind (·.2)).filter (· > 0)
+          let titleSizes := fun (l : List Elem) => l.filterMap fun e => if e.isTitle then sizeOf e else none
+          let pageBuckets : List (Nat × List Nat) := (splitPages els).filterMap fun pg =>
+            pg.head?.map fun f => (f.md.page, buckets (titleSizes pg))
+          let levelOfPage := fun (e : Elem) =>
+            levelOfSize (((pageBuckets.find? (·.1 == e.md.page)).map (·.2)).getD []) (sizeOf e)
+          let docBuckets := buckets (titleSizes els)
+          let levelOfDoc := fun (e : Elem) => levelOfSize docBuckets (sizeOf e)
+          let els' := partitionHeadings levelOfPage levelOfDoc els
           let cfg : Config := { maxTokens := max, mergeAdjacent := merge == "1",
                                 propagateHeadings := prop == "1", sameTypeOnly := policy == "S" }
           let mode : CtxMode := match ctx with
